@@ -203,7 +203,8 @@ ASSUME_COMMON = ['the reference model is libstdc++ std::vector<int>/std::set<int
 
 def check_C01(tier, seed, t0):
     cases, maxlen = budget(tier, (20000, 60), (400000, 80))
-    parts = [interp_part('C01', 'vector_histories', vec_jobs([n for n, _ in C.VEC_CONFIGS], cases, maxlen), seed, VEC_RULES['C01'], True)]
+    parts = [interp_part('C01', 'vector_histories', vec_jobs([n for n, _ in C.VEC_CONFIGS], cases, maxlen) + vec_jobs(C.VEC_MULTISTD, cases, maxlen, stds=('11', '14', '20')),
+                         seed, VEC_RULES['C01'], True)]
     parts += fuzz_parts('C01', tier, seed, ('vec',), True)
     return finish('C01', tier, seed, 'exploration', parts, VEC_RULES['C01'], ASSUME_COMMON, t0)
 
@@ -211,7 +212,7 @@ def check_C01(tier, seed, t0):
 def check_C02(tier, seed, t0):
     cases, maxlen = budget(tier, (20000, 60), (300000, 80))
     names = C.vec_subset(C.is_tracked)
-    jobs = vec_jobs(names, cases, maxlen) + vec_jobs(C.VEC_MULTISTD, cases, maxlen, stds=('11', '14', '20'))
+    jobs = vec_jobs(names, cases, maxlen) + vec_jobs([n for n in C.VEC_MULTISTD if '_i32_' not in n], cases, maxlen, stds=('11', '14', '20'))
     parts = [interp_part('C02', 'vector_histories', jobs, seed, VEC_RULES['C02'], True)]
     fsn = [n for n, _ in C.FS_CONFIGS if '_i32' not in n]
     parts.append(interp_part('C02', 'smallset_histories', ss_jobs([n for n, _ in C.SS_CONFIGS if '_i32' not in n], cases, maxlen), seed,
